@@ -1,6 +1,7 @@
 (* C11 - parsing is insensitive to inter-token whitespace and keyword letter case.
    The property is FALSE of the library at full strength (the *_refuted theorems); what holds is
    stated layer by layer.  Definitions: Split/Skeleton.v, Group/Skel.v, Lexer/WsRun.v. *)
+From SqlModel.Gen Require LexPins.   (* the scan loop, is_keyword, consume and the class-level state of sqlparse/lexer.py have the pinned shape *)
 From SqlModel.Props Require C11g.   (* letter case: all 25 grouping passes and parse, unbounded *)
 From SqlModel Require Import Base PyStr Re Lexer SplitDefs Splitter Node Passes MatchSpec.
 From SqlModel Require Import Skeleton SkeletonFacts Skel SkelFacts WsRun.
